@@ -179,4 +179,61 @@ def like (w : Nat → Int) (bin : Bool) (esc : Nat) (pat s : List Nat) : Option 
     | none => none
     | some ns => some (!malformed bin s && likeRun ns ((runes bin s).map w))
 
+/-! ### Regenerated weight tables
+
+`c29 extract` packs the weights the compiled `Sorter` returns for the runes `0..tableSize-1` of a
+collation into one natural number (32 bits per rune, two's complement, rune `r` in bits
+`[32r, 32r+32)`), and the single byte a one-byte character set encodes a rune to into another one
+(16 bits per rune, `0xFFFF` = the rune is not in the character set). -/
+
+/-- Go: `int32` default weight of a rune a collation has no entry for (`math.MaxInt32`). -/
+def defaultWeight : Int := 2147483647
+
+def weightAt (tbl r : Nat) : Int :=
+  let u := (tbl >>> (32 * r)) % 4294967296
+  if u ≥ 2147483648 then (u : Int) - 4294967296 else (u : Int)
+
+def encAt (tbl r : Nat) : Option Nat :=
+  let u := (tbl >>> (16 * r)) % 65536
+  if u = 65535 then none else some u
+
+/-- The weight function of a regenerated table (runes beyond the table weigh `defaultWeight`; the
+per-table theorems only talk about strings whose runes are inside the table). -/
+def tableW (size tbl : Nat) (r : Nat) : Int := if r < size then weightAt tbl r else defaultWeight
+
+/-! ### SQL operators on two collated columns
+
+The row `SELECT a = b, a < b, a > b, a LIKE b, a IN (b, b), a IN ('<b>', '\x01'), a <=> b,
+STRCMP(a, b)` for non-NULL `a`, `b` of a column collation with weight function `w`.
+
+Spec: every operator uses the column collation. Impl model: the same, except the literal list —
+`NewHashInTuple` hashes both sides with `GetCompareType(column type, literal type)`, which is
+LONGTEXT in the *default* collation `utf8mb4_0900_bin` (weight = code point), not the column's. -/
+
+def b01 (x : Bool) : String := if x then "1" else "0"
+
+def sqlRow (w : Nat → Int) (inLit : Bool) (a b : List Nat) : List String :=
+  let c := compareSpec w false a b
+  let lk := match like w false 92 b a with
+    | some r => b01 r
+    | none => "err"
+  [b01 (c == 0), b01 (c < 0), b01 (c > 0), lk, b01 (c == 0), b01 inLit, b01 (c == 0), toString c]
+
+def sqlRowSpec (w : Nat → Int) (a b : List Nat) : List String :=
+  sqlRow w (compareSpec w false a b == 0) a b
+
+/-- the weight function of `utf8mb4_0900_bin`, the collation of a string literal -/
+def wDefault (r : Nat) : Int := r
+
+def sqlRowImpl (w : Nat → Int) (a b : List Nat) : List String :=
+  sqlRow w (compare wDefault false a b == some 0) a b
+
+/-- Region of the finding `in_literal_list_ignores_collation`: the two strings are equal under the
+column collation but not under the literal's. -/
+def InLiteralRegion (w : Nat → Int) (a b : List Nat) : Prop :=
+  compareSpec w false a b = 0 ∧ compareSpec wDefault false a b ≠ 0
+
+instance (w : Nat → Int) (a b : List Nat) : Decidable (InLiteralRegion w a b) := by
+  unfold InLiteralRegion; infer_instance
+
 end Gms.Collation
